@@ -184,6 +184,30 @@ def resolver_alias(name1: str, name2: str, i: int) -> bool:
     return ctx.done((k1 == k2) == (name1 == name2), 'resolved')
 
 
+def values_only(i1: int, i2: int, alias: str) -> bool:
+    """
+    pre: 0 <= i1 < 1000 and 0 <= i2 < 1000 and len(alias) <= 2
+    post: _
+    """
+    # the key is a function of the argument VALUES at call time, not of object identity, of Python's hash/== classes, or
+    # of what was encoded earlier in the process: an object mutated between two calls gets a new key; 1 and True
+    # (equal, same hash) get different keys whichever is encoded first
+    ctx.begin()
+    TR = _install(False)
+    obj = Thing(i1)
+    k1 = TR._input_interception_key(alias, None, True, obj, 5)
+    obj.a = i2
+    k2 = TR._input_interception_key(alias, None, True, obj, 5)
+    ok = (k1 == k2) == (i1 == i2)
+    ka = TR._input_interception_key(alias, None, True, 1, (1, 0))
+    kb = TR._input_interception_key(alias, None, True, True, (True, False))
+    kc = TR._input_interception_key(alias, None, True, 1, (1, 0))
+    ok = ok and ka != kb and ka == kc
+    if i1 != i2:
+        ctx.mark('mutated-between-calls')
+    return ctx.done(ok, 'mutated-between-calls')
+
+
 def replay_same_call_same_key(args, shard, bounds):
     """replay on the real function with the real jsonpickle; set order = real hash randomisation in two subprocesses"""
     code = r'''
@@ -238,6 +262,10 @@ CONDITIONS = [
                          'witness_shard': _W},
                'thorough': {'bounds': {'AL': 3, 'SL': 2, 'IMAX': 1000}, 'timeout': 3000,
                             'shards': [dict(x, which=w) for x in _TSH for w in range(4)], 'witness_shard': _W}}},
+    {'fn': 'values_only', 'nontrivial': 'mutated-between-calls',
+     'what': 'key = function of argument values at call time: mutated object, equal-hash values (1 vs True), call history',
+     'tiers': {'quick': {'bounds': {}, 'timeout': 200, 'shards': [{}]},
+               'thorough': {'bounds': {}, 'timeout': 600, 'shards': [{}]}}},
     {'fn': 'resolver_alias', 'nontrivial': 'resolved',
      'what': 'resolver-formatted aliases separate calls exactly by the resolved parameters',
      'tiers': {'quick': {'bounds': {'AL': 3}, 'timeout': 200, 'shards': [{}]},
